@@ -7,7 +7,7 @@ B=${MUTBENCH_DIR:-/root/mutbench}
 mkdir -p $B
 if [ ! -d $B/repo ]; then git -C /repo worktree add -q --detach $B/repo HEAD || exit 1; fi
 git -C $B/repo reset -q --hard; git -C $B/repo checkout -q --detach "$(git -C /repo rev-parse HEAD)" || exit 1
-rsync -a --delete --exclude harness/target --exclude replay --exclude evidence --exclude .git /verif/ $B/verif/
+rsync -a --delete --exclude harness/target --exclude replay --exclude evidence --exclude .git ${MUTBENCH_SRC:-/verif}/ $B/verif/
 mkdir -p $B/verif/evidence
 sed -i "s|/repo/crates|$B/repo/crates|g" $B/verif/harness/Cargo.toml
 sed -i "s|--manifest-path /repo/Cargo.toml|--manifest-path $B/repo/Cargo.toml|; s|/repo/Cargo.lock|$B/repo/Cargo.lock|g" $B/verif/scripts/build.sh
